@@ -547,6 +547,9 @@ type intInfo struct {
 }
 
 func intInfoOf(t types.Type) (intInfo, bool) {
+	if t == nil {
+		return intInfo{}, false
+	}
 	b, ok := types.Unalias(t).Underlying().(*types.Basic)
 	if !ok || b.Info()&types.IsInteger == 0 {
 		return intInfo{}, false
